@@ -409,6 +409,16 @@ def corpus_sets():
         unit("Led1", name="led-佐"), unit("Led2", name="led-佗"),
         {"variant": "Opt", "name": "опция", "doc": None, "sub": None, "args": [
             arg("zh", "flag", "bool", short="ж", long="жук"), arg("eu", "opt", "char", short="€", optional=True), arg("rest", optional=True)]}]}})
+    # 4, 5: one name a proper prefix of another, declared shorter-first and longer-first
+    sets.append({"kind": "enum", "enum": {"title": None, "cmds": [unit("Get"), unit("GetLed"), unit("Exit")]}})
+    sets.append({"kind": "enum", "enum": {"title": None, "cmds": [unit("GetLed"), unit("Get"), unit("He"), unit("Helper")]}})
+    # 6: parent with a valued option and a flag before a sub-command (help / parse state machine)
+    sub6 = {"title": None, "cmds": [{"variant": "Get", "name": None, "doc": "Get it", "sub": None, "args": [arg("what", optional=True)]}, unit("Put")]}
+    sets.append({"kind": "enum", "enum": {"title": None, "cmds": [
+        {"variant": "Base", "name": None, "doc": "Base", "args": [arg("name", "opt", "str", long=True, short=True, optional=True), arg("verbose", "flag", "bool", long=True, short=True),
+                                                              arg("level", "opt", "u8", long=True, short=True, default=("v", ("n", 1)))],
+         "sub": {"optional": False, "enum": sub6, "field": "command"}},
+        {"variant": "Copy", "name": None, "doc": None, "sub": None, "args": [arg("name", "opt", "str", long=True, short=True, optional=True), arg("verbose", "flag", "bool", short=True), arg("file", valname="FILE")]}]}})
     return sets
 
 VARIANTS = ["Get", "GetLed", "GetAdc", "Set", "SetLed", "Go", "Status", "Stat", "Start", "Stop", "Helper", "Hello", "He", "Exit", "Led", "Adc", "A", "Ab", "Abc", "Xy"]
@@ -553,6 +563,23 @@ def rand_cmd_tokens(rng, e, depth=0):
             merged.append(pos.pop(0))
         else:
             merged.append(opt.pop(0))
+    # repeat an option (last one wins), or give an option without its value directly before a flag / another item
+    opts_only = [m for m in merged if m[0] == "opt"]
+    if opts_only and rng.randrange(6) == 0:
+        o = rng.choice(opts_only)
+        a_ = next((a for a in c["args"] if a["kind"] == "opt" and (("--" + (arg_long(a) or "\0")) == o[1][0] or ("-" + (arg_short(a) or "\0")) == o[1][0])), None)
+        if a_ is not None:
+            names = [("--" + arg_long(a_)) if arg_long(a_) else None, ("-" + arg_short(a_)) if arg_short(a_) else None]
+            nm2 = rng.choice([n for n in names if n])
+            merged.insert(rng.randrange(len(merged) + 1), ("opt", [nm2, sample_value(rng, a_["ty"], True)]))
+    if opts_only and rng.randrange(8) == 0:
+        flags = [a for a in c["args"] if a["kind"] == "flag"]
+        valued = [a for a in c["args"] if a["kind"] == "opt"]
+        if flags and valued:
+            f_, v_ = rng.choice(flags), rng.choice(valued)
+            fn = ("--" + arg_long(f_)) if arg_long(f_) and rng.randrange(2) else (("-" + arg_short(f_)) if arg_short(f_) else "--" + arg_long(f_))
+            vn = ("--" + arg_long(v_)) if arg_long(v_) and rng.randrange(2) else (("-" + arg_short(v_)) if arg_short(v_) else "--" + arg_long(v_))
+            merged.insert(rng.randrange(len(merged) + 1), ("opt", [vn, fn]))
     r = rng.randrange(20)
     if r == 0: merged.insert(rng.randrange(len(merged) + 1), ("x", ["--nope"]))
     elif r == 1: merged.insert(rng.randrange(len(merged) + 1), ("x", ["-Z"]))
